@@ -28,7 +28,7 @@ use nexosim::time::MonotonicTime;
 use crate::gen;
 use crate::props::sim::{self, ExecSet, FamilyRun};
 use crate::rec::{self, ExecCfg};
-use crate::util::{h2, Json, Opts, Report, Rng};
+use crate::util::{h2, h3, Json, Opts, Report, Rng};
 
 struct Src {
     out: Output<u64>,
@@ -204,6 +204,515 @@ fn clones_case(seed: u64, threads: usize, nops: usize) -> (Result<Stats, String>
     (Ok(st), ops)
 }
 
+
+// ---------------------------------------------------------------------------
+// Part `gates`: scripted completion orders and spurious wake-ups.
+//
+// Askers own `Requestor` ports connected (plain / map / filter_map, possibly
+// twice to the same replier) to repliers whose handlers block on harness gates;
+// a conductor model opens the gates in a scripted random order, interleaved
+// with spurious wake-ups of the blocked replier tasks and cooperative yields.
+// The asker awaits the broadcast through a wrapper that sometimes wakes its
+// own task right after a `Pending` poll, so the broadcast future is re-polled
+// while none of its sub-futures has been scheduled. A `QuerySource` action
+// scheduled for the same instant covers the source-side broadcaster. All
+// events of a round are scheduled for one instant and run by one `step()`.
+//
+// Oracle per query operation: the reply sequence equals the one computed from
+// the connection list (connection order, filters, request and reply maps);
+// the operation's end stamp is later than the end stamp of each handler that
+// computed one of its replies; each replier ran once per accepting connection.
+// Sound: stamps respect happens-before (reply -> completion), every gate is
+// eventually opened by the conductor whatever the schedule, so `step()` must
+// return Ok; wakers are only invoked from handler code on executor threads.
+
+use std::collections::HashMap;
+use std::future::Future;
+use std::pin::Pin;
+use std::task::{Context as TaskCx, Poll, Waker};
+use std::time::Duration;
+
+use nexosim::ports::QuerySource;
+
+#[derive(Default)]
+struct GateSet {
+    inner: Mutex<Vec<(u32, Vec<Waker>)>>,
+}
+impl GateSet {
+    fn new(n: usize) -> Self {
+        GateSet { inner: Mutex::new((0..n).map(|_| (0, Vec::new())).collect()) }
+    }
+    fn open(&self, g: usize) {
+        let w = {
+            let mut i = self.inner.lock().unwrap();
+            i[g].0 += 1;
+            std::mem::take(&mut i[g].1)
+        };
+        for w in w {
+            w.wake();
+        }
+    }
+    fn spurious(&self, g: usize) -> usize {
+        let w: Vec<Waker> = self.inner.lock().unwrap()[g].1.clone();
+        let n = w.len();
+        for w in w {
+            w.wake_by_ref();
+        }
+        n
+    }
+}
+struct GateWait<'a> {
+    gates: &'a GateSet,
+    g: usize,
+    need: u32,
+}
+impl Future for GateWait<'_> {
+    type Output = ();
+    fn poll(self: Pin<&mut Self>, cx: &mut TaskCx<'_>) -> Poll<()> {
+        let mut i = self.gates.inner.lock().unwrap();
+        if i[self.g].0 >= self.need {
+            Poll::Ready(())
+        } else {
+            // Keep one waker per waiting task (re-polls replace it).
+            i[self.g].1.retain(|w| !w.will_wake(cx.waker()));
+            i[self.g].1.push(cx.waker().clone());
+            Poll::Pending
+        }
+    }
+}
+
+/// Cooperative yield: `Pending` once after waking itself.
+struct YieldOnce(bool);
+impl Future for YieldOnce {
+    type Output = ();
+    fn poll(mut self: Pin<&mut Self>, cx: &mut TaskCx<'_>) -> Poll<()> {
+        if self.0 {
+            Poll::Ready(())
+        } else {
+            self.0 = true;
+            cx.waker().wake_by_ref();
+            Poll::Pending
+        }
+    }
+}
+
+/// Awaits `inner`, waking its own task after some `Pending` polls so that the
+/// broadcast future is polled again although no sub-future was scheduled.
+struct Repoll<F> {
+    inner: F,
+    rng: Rng,
+    left: u32,
+    done: Arc<std::sync::atomic::AtomicU64>,
+}
+impl<F: Future + Unpin> Future for Repoll<F> {
+    type Output = F::Output;
+    fn poll(mut self: Pin<&mut Self>, cx: &mut TaskCx<'_>) -> Poll<F::Output> {
+        let this = &mut *self;
+        match Pin::new(&mut this.inner).poll(cx) {
+            Poll::Ready(x) => Poll::Ready(x),
+            Poll::Pending => {
+                if this.left > 0 && this.rng.chance(1, 2) {
+                    this.left -= 1;
+                    this.done.fetch_add(1, std::sync::atomic::Ordering::Relaxed);
+                    cx.waker().wake_by_ref();
+                }
+                Poll::Pending
+            }
+        }
+    }
+}
+
+#[derive(Clone, Debug)]
+struct Q {
+    qid: u64,
+    base: u32,
+    phases: u8,
+}
+#[derive(Clone, Debug, PartialEq)]
+struct R {
+    from: u64,
+    qid: u64,
+    val: u64,
+}
+fn rval(from: u64, qid: u64) -> u64 {
+    h2(qid, 0xA000 + from)
+}
+
+#[derive(Debug, Clone)]
+struct AskRec {
+    asker: u64,
+    port: usize,
+    qid: u64,
+    s_begin: u64,
+    s_end: u64,
+    replies: Vec<R>,
+}
+#[derive(Debug, Clone)]
+struct ReplyRec {
+    replier: u64,
+    qid: u64,
+    s_begin: u64,
+    s_end: u64,
+}
+#[derive(Default)]
+struct GLog {
+    asks: Vec<AskRec>,
+    replies: Vec<ReplyRec>,
+}
+
+struct Asker {
+    id: u64,
+    reqs: Vec<Requestor<Q, R>>,
+    log: Arc<Mutex<GLog>>,
+    spurious: Arc<std::sync::atomic::AtomicU64>,
+    seed: u64,
+}
+impl Asker {
+    async fn ask(&mut self, a: (usize, Q)) {
+        let (port, q) = a;
+        let qid = q.qid;
+        let s_begin = rec::stamp();
+        let fut = self.reqs[port].send(q);
+        let fut = Box::pin(fut);
+        let it = Repoll { inner: fut, rng: Rng::new(h2(self.seed, qid)), left: 4, done: self.spurious.clone() }.await;
+        let replies: Vec<R> = it.collect();
+        let s_end = rec::stamp();
+        self.log.lock().unwrap().asks.push(AskRec { asker: self.id, port, qid, s_begin, s_end, replies });
+    }
+}
+impl Model for Asker {}
+
+struct Replier {
+    id: u64,
+    gates: Arc<GateSet>,
+    log: Arc<Mutex<GLog>>,
+    busy: bool,
+}
+impl Replier {
+    async fn reply(&mut self, q: Q) -> R {
+        assert!(!self.busy);
+        self.busy = true;
+        let s_begin = rec::stamp();
+        // Number of gate phases depends on (replier, query) so that repliers of
+        // one broadcast finish after different numbers of wake-ups.
+        let phases = (h2(q.qid, self.id) % (q.phases as u64 + 1)) as u32;
+        for ph in 0..phases {
+            GateWait { gates: &self.gates, g: self.id as usize, need: q.base + ph + 1 }.await;
+            if h2(q.qid, 77 + ph as u64) % 3 == 0 {
+                YieldOnce(false).await;
+            }
+        }
+        let s_end = rec::stamp();
+        self.log.lock().unwrap().replies.push(ReplyRec { replier: self.id, qid: q.qid, s_begin, s_end });
+        self.busy = false;
+        R { from: self.id, qid: q.qid, val: rval(self.id, q.qid) }
+    }
+}
+impl Model for Replier {}
+
+#[derive(Clone, Debug)]
+enum COp {
+    Open(usize),
+    Spurious(usize),
+    Yield,
+}
+struct Conductor {
+    gates: Arc<GateSet>,
+    spurious_delivered: Arc<std::sync::atomic::AtomicU64>,
+}
+impl Conductor {
+    async fn conduct(&mut self, script: Vec<COp>) {
+        for op in script {
+            match op {
+                COp::Open(g) => self.gates.open(g),
+                COp::Spurious(g) => {
+                    let n = self.gates.spurious(g);
+                    self.spurious_delivered.fetch_add(n as u64, std::sync::atomic::Ordering::Relaxed);
+                }
+                COp::Yield => YieldOnce(false).await,
+            }
+        }
+    }
+}
+impl Model for Conductor {}
+
+fn q_apply(kind: ConnKind, qid: u64, ci: usize) -> Option<u64> {
+    match kind {
+        ConnKind::Plain => Some(qid),
+        ConnKind::Map => Some(h2(qid, 0x100 + ci as u64)),
+        ConnKind::FilterEven => {
+            let u = h2(qid, 0x200 + ci as u64);
+            if u % 3 != 0 {
+                Some(u)
+            } else {
+                None
+            }
+        }
+    }
+}
+fn r_apply(kind: ConnKind, r: R, ci: usize) -> R {
+    match kind {
+        ConnKind::Plain => r,
+        _ => R { val: h2(r.val, 0x300 + ci as u64), ..r },
+    }
+}
+
+struct GStats {
+    queries: u64,
+    replies: u64,
+    multi: u64,
+    spurious_self: u64,
+    spurious_gate: u64,
+    order_hashes: Vec<u64>,
+    out_of_connection_order_completions: u64,
+}
+
+fn gates_case(seed: u64, ex: &crate::bench::Exec, ctx: (String, String)) -> Result<GStats, (String, String)> {
+    use std::sync::atomic::{AtomicU64, Ordering::Relaxed};
+    let mut rng = Rng::new(seed);
+    rec::reset(&ex.cfg);
+    rec::set_context(&ctx.0, &ctx.1);
+    let miri = cfg!(miri);
+    let nrep = rng.range(2, if miri { 3 } else { 6 }) as usize;
+    let nask = rng.range(1, if miri { 2 } else { 3 }) as usize;
+    let gates = Arc::new(GateSet::new(nrep));
+    let log = Arc::new(Mutex::new(GLog::default()));
+    let spur_self = Arc::new(AtomicU64::new(0));
+    let spur_gate = Arc::new(AtomicU64::new(0));
+    let kinds = [ConnKind::Plain, ConnKind::Plain, ConnKind::Map, ConnKind::FilterEven];
+
+    let mut rep_addrs: Vec<Address<Replier>> = Vec::new();
+    let mut rep_boxes = Vec::new();
+    for _ in 0..nrep {
+        let mb: Mailbox<Replier> = Mailbox::with_capacity(*rng.pick(&[1usize, 1, 1, 2, 4]));
+        rep_addrs.push(mb.address());
+        rep_boxes.push(mb);
+    }
+    // Connection lists: per asker, per port.
+    let mut conns: Vec<Vec<Vec<(usize, ConnKind)>>> = Vec::new();
+    let mut init = SimInit::with_num_threads(ex.threads);
+    let mut ask_addrs: Vec<Address<Asker>> = Vec::new();
+    for a in 0..nask {
+        let nports = rng.range(1, 2) as usize;
+        let mut ports = Vec::new();
+        let mut reqs = Vec::new();
+        for _ in 0..nports {
+            let nc = rng.range(0, if miri { 3 } else { 6 }) as usize;
+            let mut list = Vec::new();
+            let mut r: Requestor<Q, R> = Requestor::default();
+            for ci in 0..nc {
+                let d = rng.usize(nrep);
+                let k = *rng.pick(&kinds);
+                match k {
+                    ConnKind::Plain => r.connect(Replier::reply, &rep_addrs[d]),
+                    ConnKind::Map => r.map_connect(move |q: &Q| Q { qid: q_apply(ConnKind::Map, q.qid, ci).unwrap(), ..q.clone() }, move |x: R| r_apply(ConnKind::Map, x, ci), Replier::reply, &rep_addrs[d]),
+                    ConnKind::FilterEven => r.filter_map_connect(move |q: &Q| q_apply(ConnKind::FilterEven, q.qid, ci).map(|u| Q { qid: u, ..q.clone() }), move |x: R| r_apply(ConnKind::FilterEven, x, ci), Replier::reply, &rep_addrs[d]),
+                }
+                list.push((d, k));
+            }
+            ports.push(list);
+            reqs.push(r);
+        }
+        conns.push(ports);
+        let mb: Mailbox<Asker> = Mailbox::with_capacity(4);
+        ask_addrs.push(mb.address());
+        init = init.add_model(Asker { id: a as u64, reqs, log: log.clone(), spurious: spur_self.clone(), seed }, mb, format!("asker{}", a));
+    }
+    for (i, mb) in rep_boxes.into_iter().enumerate() {
+        init = init.add_model(Replier { id: i as u64, gates: gates.clone(), log: log.clone(), busy: false }, mb, format!("replier{}", i));
+    }
+    let cmb: Mailbox<Conductor> = Mailbox::new();
+    let caddr = cmb.address();
+    init = init.add_model(Conductor { gates: gates.clone(), spurious_delivered: spur_gate.clone() }, cmb, "conductor");
+    // Driver-side query source.
+    let src_conns: Vec<(usize, ConnKind)> = (0..rng.range(0, 3) as usize).map(|_| (rng.usize(nrep), *rng.pick(&kinds))).collect();
+    let mut qsrc: QuerySource<Q, R> = QuerySource::new();
+    for (ci, (d, k)) in src_conns.iter().enumerate() {
+        match k {
+            ConnKind::Plain => qsrc.connect(Replier::reply, &rep_addrs[*d]),
+            ConnKind::Map => qsrc.map_connect(move |q: &Q| Q { qid: q_apply(ConnKind::Map, q.qid, ci).unwrap(), ..q.clone() }, move |x: R| r_apply(ConnKind::Map, x, ci), Replier::reply, &rep_addrs[*d]),
+            ConnKind::FilterEven => qsrc.filter_map_connect(move |q: &Q| q_apply(ConnKind::FilterEven, q.qid, ci).map(|u| Q { qid: u, ..q.clone() }), move |x: R| r_apply(ConnKind::FilterEven, x, ci), Replier::reply, &rep_addrs[*d]),
+        }
+    }
+    rec::in_call(true);
+    let (mut simu, sched) = match init.init(MonotonicTime::EPOCH) {
+        Ok(x) => x,
+        Err(e) => return Err(("C14/gates-init-failed".into(), format!("init failed: {:?}", e))),
+    };
+    rec::in_call(false);
+
+    let mut st = GStats { queries: 0, replies: 0, multi: 0, spurious_self: 0, spurious_gate: 0, order_hashes: Vec::new(), out_of_connection_order_completions: 0 };
+    let rounds = if miri { 1 } else { rng.range(1, 3) };
+    let mut base = 0u32;
+    for round in 0..rounds {
+        let phases = rng.range(1, 3) as u8;
+        log.lock().unwrap().asks.clear();
+        log.lock().unwrap().replies.clear();
+        // Conductor script: every gate is opened `phases` times, in random
+        // order, with spurious wake-ups and yields in between.
+        let mut script: Vec<COp> = Vec::new();
+        for g in 0..nrep {
+            for _ in 0..phases {
+                script.push(COp::Open(g));
+            }
+        }
+        rng.shuffle(&mut script);
+        let mut full = Vec::new();
+        for op in script {
+            for _ in 0..rng.below(3) {
+                full.push(if rng.chance(1, 2) { COp::Yield } else { COp::Spurious(rng.usize(nrep)) });
+            }
+            full.push(op);
+        }
+        let mut expected: Vec<(u64, usize, u64)> = Vec::new(); // (asker or u64::MAX for the source, port, qid)
+        let delay = Duration::from_nanos(1);
+        // Same-time actions of one origin are run one after the other (C07), and
+        // a QuerySource action only finishes when its replies are in: the
+        // conductor's event therefore goes first and the source query last.
+        sched.schedule_event(delay, Conductor::conduct, full.clone(), &caddr).unwrap();
+        for a in 0..nask {
+            for port in 0..conns[a].len() {
+                if rng.chance(3, 4) {
+                    let qid = h3(seed, round, (a * 8 + port) as u64) | 1 << 40;
+                    let q = Q { qid, base, phases };
+                    sched.schedule_event(delay, Asker::ask, (port, q), &ask_addrs[a]).unwrap();
+                    expected.push((a as u64, port, qid));
+                }
+            }
+        }
+        let mut src_rx = None;
+        if rng.chance(1, 2) {
+            let qid = h3(seed, round, 0xF00D) | 1 << 40;
+            let (action, rx) = qsrc.query(Q { qid, base, phases });
+            sched.schedule(delay, action).unwrap();
+            src_rx = Some((qid, rx));
+        }
+        rec::in_call(true);
+        let r = simu.step();
+        rec::in_call(false);
+        base += phases as u32;
+        if let Err(e) = r {
+            return Err(("C14/query-broadcast-stalled-or-failed".into(), format!("round {}: step() returned {:?} although every gate is opened by the conductor; gate levels {:?} (base {} phases {}); conductor script {:?}; connections {:?}; replier log {:?}", round, e, gates.inner.lock().unwrap().iter().map(|g| (g.0, g.1.len())).collect::<Vec<_>>(), base, phases, full, conns, log.lock().unwrap().replies)));
+        }
+        let l = log.lock().unwrap();
+        // Every expected ask completed, exactly once.
+        for (a, port, qid) in &expected {
+            let n = l.asks.iter().filter(|x| x.asker == *a && x.port == *port && x.qid == *qid).count();
+            if n != 1 {
+                return Err(("C14/query-did-not-complete".into(), format!("round {}: query {:x} of asker {} port {} completed {} times during a step that returned Ok", round, qid, a, port, n)));
+            }
+        }
+        let mut judged: Vec<(String, u64, &Vec<(usize, ConnKind)>, Vec<R>, Option<u64>)> = Vec::new();
+        for ask in l.asks.iter() {
+            judged.push((format!("asker {} port {}", ask.asker, ask.port), ask.qid, &conns[ask.asker as usize][ask.port], ask.replies.clone(), Some(ask.s_end)));
+        }
+        if let Some((qid, mut rx)) = src_rx {
+            match rx.take() {
+                Some(it) => judged.push(("query source".into(), qid, &src_conns, it.collect(), None)),
+                None => return Err(("C14/query-did-not-complete".into(), format!("round {}: the QuerySource action for query {:x} produced no reply iterator after a step that returned Ok", round, qid))),
+            }
+        }
+        // Handler runs per (replier, mapped qid).
+        let mut runs: HashMap<(u64, u64), Vec<&ReplyRec>> = HashMap::new();
+        for r in l.replies.iter() {
+            runs.entry((r.replier, r.qid)).or_default().push(r);
+        }
+        let mut exp_runs: HashMap<(u64, u64), usize> = HashMap::new();
+        for (who, qid, list, got, s_end) in &judged {
+            let mut exp = Vec::new();
+            let mut ends = Vec::new();
+            for (ci, (d, k)) in list.iter().enumerate() {
+                if let Some(u) = q_apply(*k, *qid, ci) {
+                    exp.push(r_apply(*k, R { from: *d as u64, qid: u, val: rval(*d as u64, u) }, ci));
+                    *exp_runs.entry((*d as u64, u)).or_insert(0) += 1;
+                    if let Some(rs) = runs.get(&(*d as u64, u)) {
+                        ends.push(rs.iter().map(|r| r.s_end).min().unwrap_or(0));
+                        if let Some(se) = s_end {
+                            // The earliest matching handler end must precede the completion.
+                            if rs.iter().all(|r| r.s_end > *se) {
+                                return Err(("C14/query-completed-before-replier-finished".into(), format!("round {}: {} query {:x} completed at stamp {} but replier {} finished computing its reply at stamp {:?}", round, who, qid, se, d, rs.iter().map(|r| r.s_end).collect::<Vec<_>>())));
+                            }
+                        }
+                    }
+                }
+            }
+            if *got != exp {
+                return Err(("C14/replies-differ-from-connection-list".into(), format!("round {}: {} query {:x}: got replies {:?}, the connection list {:?} requires {:?} (one per accepting connection, in connection order)", round, who, qid, got, list, exp)));
+            }
+            st.queries += 1;
+            st.replies += exp.len() as u64;
+            if exp.len() > 1 {
+                st.multi += 1;
+                let mut perm: Vec<usize> = (0..ends.len()).collect();
+                perm.sort_by_key(|i| ends[*i]);
+                if perm.windows(2).any(|w| w[0] > w[1]) {
+                    st.out_of_connection_order_completions += 1;
+                }
+                st.order_hashes.push(perm.iter().fold(exp.len() as u64, |h, i| h2(h, *i as u64)));
+            }
+        }
+        for (k, n) in &exp_runs {
+            let got = runs.get(k).map_or(0, |v| v.len());
+            if got != *n {
+                return Err(("C14/replier-ran-wrong-number-of-times".into(), format!("round {}: replier {} handled request {:x} {} times, {} accepting connections target it", round, k.0, k.1, got, n)));
+            }
+        }
+        for (k, v) in &runs {
+            if !exp_runs.contains_key(k) {
+                return Err(("C14/replier-ran-wrong-number-of-times".into(), format!("round {}: replier {} handled request {:x} {} times although no accepting connection carries it", round, k.0, k.1, v.len())));
+            }
+        }
+    }
+    st.spurious_self = spur_self.load(Relaxed);
+    st.spurious_gate = spur_gate.load(Relaxed);
+    rec::in_call(true);
+    drop(simu);
+    drop(sched);
+    rec::in_call(false);
+    Ok(st)
+}
+
+fn gates_part(rep: &mut Report, opts: &Opts) {
+    let n = if cfg!(miri) { 3 } else { opts.n(600, 20000) };
+    let base = h2(opts.seed, 0xC14_6A7E);
+    for case in 0..n {
+        if !opts.mine(case) {
+            continue;
+        }
+        let cs = h2(base, case);
+        let execs = sim::execs(ExecSet::Full, cs, case, opts.thorough, &[sim::CHANNEL_SITES, sim::TASK_SITES]);
+        for (ei, ex) in execs.iter().enumerate() {
+            if let Some(only) = opts.rest.iter().position(|a| a == "--exec") {
+                if opts.rest.get(only + 1).and_then(|s| s.parse::<usize>().ok()) != Some(ei) {
+                    continue;
+                }
+            }
+            let replay = format!("{} --exec {}", opts.replay_args("gates", case), ei);
+            rep.evaluations += 1;
+            match gates_case(cs, ex, ("C14/hang/query-broadcast-never-completes".into(), replay.clone())) {
+                Ok(st) => {
+                    rep.count("gated_queries_compared", st.queries);
+                    rep.count("gated_replies_compared", st.replies);
+                    rep.count("gated_queries_with_several_repliers", st.multi);
+                    rep.count("gated_queries_whose_repliers_finished_out_of_connection_order", st.out_of_connection_order_completions);
+                    rep.count("spurious_self_wakes_of_the_asker_task", st.spurious_self);
+                    rep.count("spurious_wakes_of_blocked_replier_tasks", st.spurious_gate);
+                    rep.count(&format!("executions_{}", ex.label), 1);
+                    for h in &st.order_hashes {
+                        rep.distinct_aux("replier_completion_orders", *h);
+                    }
+                    if st.multi > 0 {
+                        let fp = rec::schedule_fingerprint();
+                        rep.distinct.insert(h3(cs, ei as u64, st.order_hashes.iter().fold(fp.0, |a, b| h2(a, *b))));
+                    }
+                }
+                Err((sig, detail)) => rep.violation(sig, format!("[gates exec={} threads={}] {}", ex.label, ex.threads, detail), replay),
+            }
+        }
+    }
+    rep.extra.insert("probe_sites_hit_and_delayed".into(), crate::rec::coverage_json());
+}
+
 pub fn run(opts: &Opts) -> Report {
     let mut rep = Report::new("C14");
     let want = |p: &str| opts.part.as_deref().map_or(true, |x| x == p);
@@ -216,6 +725,9 @@ pub fn run(opts: &Opts) -> Report {
             dopt.max_inv = 30;
         }
         sim::run_family(&mut rep, opts, &FamilyRun { prop: "C14", part: "replies", cases: opts.n(if cfg!(miri) { 4 } else { 400 }, 10000), gen: &|s| gen::gen_dag(s, &dopt), set: ExecSet::Full, pools: &[sim::CHANNEL_SITES, sim::TASK_SITES], nontrivial: &|s, _| s.query_replies > 1, predict: true, also: &[] });
+    }
+    if want("gates") {
+        gates_part(&mut rep, opts);
     }
     if want("clones") {
         let n = if cfg!(miri) { 2 } else { opts.n(600, 20000) };
